@@ -513,13 +513,20 @@ struct Machine {
     cgroup: Cgroup,
 }
 
-const CGROUP_NAMES: [&str; 6] = [
+const CGROUP_NAMES: [&str; 11] = [
     "/",
     "/foo/bar",
     "/docker/6a74f501e3b4c9d93ad440a7b73149cf2b5d56073c109a8d774c0793f7fe267f",
     "/user.slice/user-1000.slice/session-3.scope",
     "/kubepods.slice/kubepods-burstable.slice/kubepods-burstable-pod1234.slice/cri-containerd-abcd.scope",
     "/system.slice/c11.service",
+    // names with characters that are separators elsewhere in /proc/self/cgroup: everything after
+    // the second colon of a line is the path
+    "/machine.slice/vm:17",
+    "/a:b:c/d",
+    "/machine.slice/machine-qemu\\x2d1\\x2dvm.scope/0::fake",
+    "/name=weird/cpu,cpuacct",
+    "/with space/x y/\u{fc}n\u{ef}c\u{f6}d\u{e9}",
 ];
 
 #[derive(Debug, Clone)]
